@@ -13,4 +13,39 @@ def obligations(ctx):
     out += pick(indexkeyspec.key_agreement(ctx), [("B-4", "retire-key")])
     out += pick(allocspec.plan_output_ids(ctx), [("B-5", "fresh-output-id")])
     out += pick(handovercrash.crash_consistency(ctx), [("B-6", "handover-crash")])
+    out += cursor_inputs(ctx)
+    return out
+
+
+def cursor_inputs(ctx):
+    """the merge reads every input segment or fails: it never goes on with fewer inputs"""
+    import re
+    import z3
+    from .. import oblig, sym
+    from .flushspec import Builder
+    b = Builder(ctx, "zone-zone_cursor_loader-{impl#0}-load_all-{closure#0}.", "ZoneCursorLoader::load_all", {})
+    E, q = b.E, ctx.q
+    r = b.mk("B-7", "ZoneCursorLoader::load_all: if the zone metadata of an input segment cannot be loaded the whole load fails (Err) - it "
+                    "never moves on to the next segment or returns Ok without that segment's zones, because the hand-over afterwards "
+                    "retires the event type from every input label, read or not")
+    out = [b.results["B-7"]]
+    if not r:
+        return out
+    zl = oblig.events(E, r"ZoneMeta::load$")
+    if not oblig.need_anchor(r, zl, "ZoneMeta::load"):
+        return out
+    r.nontrivial = True
+    rets = [(reach, E.disc_term(env.get(0))) for (_n, reach, env) in E.returns]
+    for z_ in zl:
+        d = z3.BitVec(f"disc({z_.site})", 64)
+        nxt = [e for e in zl if e.layer == z_.layer + 1]
+        goals = [("moves on to the next input segment", n_.reach) for n_ in nxt]
+        goals += [("returns Ok", z3.And(reach, dd == 0)) for reach, dd in rets if dd is not None]
+        for what, g in goals:
+            res, model = q.check(z_.reach, d == 1, g, domain=E.domain)
+            r.queries += 1
+            if res == z3.sat:
+                oblig.violated(r, E, q, z_, model, f"load_all {what} although ZoneMeta::load failed for an input segment: the merge output lacks "
+                                                   "that segment's events, and the hand-over then retires and reclaims the unread input")
+                return out
     return out
